@@ -162,7 +162,7 @@ func main() {
 
 	icfg := &interp.Config{InitLog: *initlog, Redirect: map[string]*ssa.Function{}}
 	allow := map[string]bool{}
-	for _, p := range strings.Split("unicode,unicode/utf8,unicode/utf16,strings,bytes,strconv,io,sort,encoding/hex,encoding/binary,encoding/base64,math/bits,container/list,fmt,path/filepath,path,hash,hash/crc32,crypto,math,slices,maps,bufio,encoding,io/ioutil,os,syscall,time,internal/oserror,internal/poll,io/fs,errors,context", ",") {
+	for _, p := range strings.Split("unicode,unicode/utf8,unicode/utf16,strings,bytes,strconv,io,sort,encoding/hex,encoding/binary,encoding/base64,math/bits,container/list,fmt,path/filepath,path,hash,hash/crc32,crypto,math,slices,maps,bufio,encoding,io/ioutil,os,syscall,time,internal/oserror,internal/poll,io/fs,errors,context,crypto/rand,math/rand", ",") {
 		allow[p] = true
 	}
 	// errors/context/os/time/syscall initialisers need reflectlite or the runtime: keep them off
